@@ -65,6 +65,24 @@ def targets(rs, dtype, H=H0, W=W0, dens=0.15):
     return np.where(rs.rand(H, W) < dens, rs.randint(1, 4, (H, W)), 0).astype(dtype)
 
 
+# finer partition used when a history picks what to interleave: entries that differ only in the
+# parameters C11 names (and therefore must meet in one history) share a group
+GROUPS = {"allocation": "proximity", "direction": "proximity",
+          "zonal_stats_custom": "zonal_stats", "zonal_stats_xarray": "zonal_stats",
+          "slope": "terrain3x3", "aspect": "terrain3x3", "curvature": "terrain3x3",
+          "quantile": "classify_k", "natural_breaks": "classify_k", "equal_interval": "classify_k",
+          "binary": "classify_bins", "reclassify": "classify_bins",
+          "ndvi": "indices2", "gci": "indices2", "nbr": "indices2", "nbr2": "indices2", "ndmi": "indices2",
+          "savi": "indices_scalar", "evi": "indices_scalar",
+          "arvi": "indices3", "sipi": "indices3", "ebbi": "indices3",
+          "trim": "window", "crop": "window", "regions": "regions",
+          "hotspots": "convolution", "convolution_2d": "convolution",
+          "perlin": "perlin", "generate_terrain": "generate_terrain"}
+for _n in ("cell_stats", "combine", "lesser_frequency", "equal_frequency", "greater_frequency",
+           "lowest_position", "highest_position", "popularity", "rank"):
+    GROUPS["local_" + _n] = "local"
+
+
 class Cat:
     def __init__(self):
         self.pool = {}
@@ -77,7 +95,7 @@ class Cat:
 
     def add(self, family, op, rasters, params=None, backend="numpy", chunks=None, identity="same",
             private=False, heavy=False, expect_error=None, always=False):
-        e = {"id": len(self.entries), "family": family, "op": op, "params": params or {},
+        e = {"id": len(self.entries), "family": family, "group": GROUPS.get(op, op), "op": op, "params": params or {},
              "rasters": list(rasters), "backend": backend, "chunks": chunks or {},
              "identity": identity, "private": private, "heavy": heavy}
         if expect_error:
